@@ -39,12 +39,35 @@ def make_scratch(tag):
     )
     if r.returncode != 0:
         raise Undecided("rsync of %s failed: %s" % (REPO, r.stderr[-500:]))
+    _SCRATCH_DIRS.add(d)
     return d
 
 
 def drop_scratch(d):
     if d and os.path.isdir(d) and not os.environ.get("VERIF_KEEP_SCRATCH"):
         shutil.rmtree(d, ignore_errors=True)
+    _SCRATCH_DIRS.discard(d)
+
+
+_CHILD_PGIDS = set()
+_SCRATCH_DIRS = set()
+
+
+def _on_term(signum, frame):
+    for pg in list(_CHILD_PGIDS):
+        try:
+            os.killpg(pg, signal.SIGKILL)
+        except Exception:
+            pass
+    for d in list(_SCRATCH_DIRS):
+        shutil.rmtree(d, ignore_errors=True)
+    os._exit(2)
+
+
+def install_signal_handlers():
+    signal.signal(signal.SIGTERM, _on_term)
+    signal.signal(signal.SIGINT, _on_term)
+    signal.signal(signal.SIGHUP, _on_term)
 
 
 def run(cmd, cwd=None, env=None, timeout=None, mem_gb=None, stdout_path=None):
@@ -63,6 +86,7 @@ def run(cmd, cwd=None, env=None, timeout=None, mem_gb=None, stdout_path=None):
     t0 = time.time()
     out_f = open(stdout_path, "w") if stdout_path else subprocess.PIPE
     p = subprocess.Popen(cmd, cwd=cwd, env=e, stdout=out_f, stderr=subprocess.STDOUT, text=True, preexec_fn=pre)
+    _CHILD_PGIDS.add(p.pid)
     timed_out = False
     try:
         out, _ = p.communicate(timeout=timeout)
@@ -73,6 +97,11 @@ def run(cmd, cwd=None, env=None, timeout=None, mem_gb=None, stdout_path=None):
         except ProcessLookupError:
             pass
         out, _ = p.communicate()
+    try:
+        os.killpg(p.pid, signal.SIGKILL)  # stragglers (cbmc children) of a finished run
+    except Exception:
+        pass
+    _CHILD_PGIDS.discard(p.pid)
     if stdout_path:
         out_f.close()
         out = open(stdout_path, errors="replace").read()
